@@ -264,9 +264,12 @@ class Loose2:
     def __init__(self, a: Any, b=None, s: Optional[Sub] = None,
                  l: Optional[List[Any]] = None,           # noqa: E741
                  d: Optional[Dict[str, Any]] = None,
+                 t: Optional[Dict[str, Sub]] = None,
+                 ts: Optional[List[Sub]] = None,
                  _yatiml_extra: Optional[OrderedDict] = None) -> None:
         T(self, locals())
         self.a, self.b, self.s, self.l, self.d = a, b, s, l, d
+        self.t, self.ts = t, ts
         self._yatiml_extra = _yatiml_extra
 
 
